@@ -486,6 +486,7 @@ package soyhtml
 //@   trustedensures[frames-kept;C02] len(s.context) == old(len(s.context)) && forall(i, 0, len(s.context), s.context[i].vars == old(s.context[i].vars) && s.context[i].entered == old(s.context[i].entered) && unchangedmap(s.context[i].vars)) && forall(i, 0, len(s.context), old(s.context)[i].vars == old(s.context[i].vars)) && otherarraysunchanged(s.context) && (base(s.context) == old(base(s.context)) || base(s.context) >= old(allocmark()))
 //@   nosafety
 //@   at call (*state).walk#0 assert[callee-binds-in-owned-frame;C08] scopeOK(arg0.context)
+//@   at call (*state).walk#0 assert[callee-runs-on-its-own-state;C03,C02] fresh(arg0) && arg0 != s
 //@   requires[frames-allocated;C02] forall(i, 0, len(s.context), s.context[i].vars < allocmark())
 //@   loop 0
 //@     invariant[params-bound-so-far;C02] nset == rangeindex + 1 && nset <= len(node.Params)
